@@ -113,6 +113,7 @@ pub fn enumerate(cfg: &AttackCfg, r: &RefRun, seed: u64) -> Vec<C03Sub> {
                             "wire-shares:bit+mac",
                             vec![s.to],
                         ));
+                        out.push(sub(cfg, r, &s, MutSpec::At { path: vec![*w], op: LeafOp::SetNone }, "wire-shares:absent", vec![s.to]));
                     }
                 }
             }
@@ -121,12 +122,16 @@ pub fn enumerate(cfg: &AttackCfg, r: &RefRun, seed: u64) -> Vec<C03Sub> {
                     let w = *o as usize;
                     out.push(sub(cfg, r, &s, MutSpec::At { path: vec![w, 0, 0], op: LeafOp::FlipBool }, "output-wire-shares:bit", vec![s.to]));
                     out.push(sub(cfg, r, &s, MutSpec::At { path: vec![w, 0, 1], op: LeafOp::XorU128(rand_mask(&mut rng)) }, "output-wire-shares:mac", vec![s.to]));
+                    out.push(sub(cfg, r, &s, MutSpec::At { path: vec![w], op: LeafOp::SetNone }, "output-wire-shares:absent", vec![s.to]));
                 }
             }
             "labels" if c != e => {
                 for (w, _) in &input_owner {
                     let victims = if label_reaches_and(&circuit, *w) { vec![e] } else { vec![] };
-                    out.push(sub(cfg, r, &s, MutSpec::At { path: vec![*w, 0], op: LeafOp::XorU128(rand_mask(&mut rng)) }, "labels:label", victims));
+                    out.push(sub(cfg, r, &s, MutSpec::At { path: vec![*w, 0], op: LeafOp::XorU128(rand_mask(&mut rng)) }, "labels:label", victims.clone()));
+                    // an absent label: with a single garbler the evaluator has no label at all for the wire
+                    let victims_absent = if n == 2 { vec![e] } else { victims };
+                    out.push(sub(cfg, r, &s, MutSpec::At { path: vec![*w], op: LeafOp::SetNone }, "labels:absent", victims_absent));
                 }
             }
             "preprocessed gates" if c != e => {
@@ -170,6 +175,7 @@ pub fn enumerate(cfg: &AttackCfg, r: &RefRun, seed: u64) -> Vec<C03Sub> {
                         "lambda:value+label",
                         vec![s.to],
                     ));
+                    out.push(sub(cfg, r, &s, MutSpec::At { path: vec![w], op: LeafOp::SetNone }, "lambda:absent", vec![s.to]));
                 }
             }
             "masked inputs" if n >= 3 => {
